@@ -216,6 +216,71 @@ func c17(c *Ctx) {
 			r.Check(extra == "", "C17.Y3", arm.Name(), "a committed entry is processed whenever its session exists", c.P.Pos(call.Pos()), "ProcessMessage dominated only by the type switch and err == nil tests",
 				"whether a committed entry is processed depends on a further condition ("+extra+"): if that condition reads anything that is not replicated state (a value of this FSM instance, a clock) one replica ends the session and another keeps it")
 		}
+		// Y1b: what "processed" means differs between the arms. A client line advances the mark to its SESSION's id; the entry
+		// that ends a session advances it to the ENTRY's own id (which is newer than the id of the session it deletes), so that the
+		// deleted session is answered "no such session", not "not yet seen". Calls in a helper are judged by the arm calling it.
+		{
+			kindOf := func(inf *types.Info, e ast.Expr) string {
+				kind := ""
+				ast.Inspect(e, func(n ast.Node) bool {
+					if se, ok := n.(*ast.SelectorExpr); ok {
+						switch se.Sel.Name {
+						case "Session":
+							kind = "session"
+						}
+					}
+					return true
+				})
+				if kind == "" {
+					kind = "entry"
+				}
+				return kind
+			}
+			armOf := func(v int) string {
+				for _, f := range g.FactsAt(v) {
+					if f.Tag != nil && f.Val {
+						if refersTo(info, f.Expr, pathRobust, "DeleteSession") {
+							return "DeleteSession"
+						}
+						if refersTo(info, f.Expr, pathRobust, "IRCFromClient") {
+							return "IRCFromClient"
+						}
+					}
+				}
+				return ""
+			}
+			want := map[string]string{"DeleteSession": "entry", "IRCFromClient": "session"}
+			check := func(armName, kind string, pos token.Pos) {
+				if armName == "" {
+					return
+				}
+				r.Check(kind == want[armName], "C17.Y1", arm.Name(), "lastProcessed after "+armName+" is the "+want[armName]+"'s id", c.P.Pos(pos), "argument built from msg."+map[string]string{"entry": "Id", "session": "Session"}[want[armName]]+".Id",
+					"after "+armName+" the last-processed mark is set from the "+kind+"'s id instead of the "+want[armName]+"'s: after a session was ended, look-ups of it are answered 'not yet seen' (retry / proxy) instead of 'no such session'")
+			}
+			for _, call := range callsIn(arm, isSLP) {
+				if len(call.Args) == 1 {
+					check(armOf(g.VertexOf(call)), kindOf(info, call.Args[0]), call.Pos())
+				}
+			}
+			// helpers of package main called from an arm
+			for _, v := range g.Nodes() {
+				for _, call := range astx.Calls(v.Node, false) {
+					fn := astx.Callee(info, call)
+					if fn == nil {
+						continue
+					}
+					h := c.P.FuncOf(fn)
+					if h == nil || h == arm || h.Body() == nil || load.ShortPkg(h.Pkg.PkgPath) != "main" {
+						continue
+					}
+					for _, c2 := range callsIn(h, isSLP) {
+						if len(c2.Args) == 1 {
+							check(armOf(v.ID), kindOf(h.Info(), c2.Args[0]), c2.Pos())
+						}
+					}
+				}
+			}
+		}
 		for _, call := range callsIn(arm, isSLP) {
 			ok := len(call.Args) == 1 && msgParam != nil && deps.Of(call.Args[0])[msgParam]
 			r.Check(ok, "C17.Y1", arm.Name(), "lastProcessed taken from the entry", c.P.Pos(call.Pos()), "argument derives from msg", "SetLastProcessed is not given an id taken from the entry")
@@ -783,6 +848,45 @@ func c17(c *Ctx) {
 		}
 		r.Check(okOwn, "C17.Y4", mds.Name(), "the acting session is removed once it is marked deleted", c.P.Pos(mds.Node().Pos()), "delete(i.sessions, <parameter>) under <session>.deleted",
 			"MaybeDeleteSession no longer removes the acting session when it was marked deleted (QUIT, ping timeout, DELETE request): the ended session stays in the session table, its secret keeps working and it is written into snapshots")
+	}
+	// Y2c: "no such session" and "not yet seen" are decided in one place (getSessionLocked, which compares the asked id with
+	// the last processed one); no other function of the IRC server returns these errors by itself
+	{
+		n := 0
+		for _, fi := range c.P.FuncsIn("ircserver") {
+			if fi.Body() == nil {
+				continue
+			}
+			info := fi.Info()
+			for _, rv := range c.Graph(fi).Returns() {
+				rs := rv.Node.(*ast.ReturnStmt)
+				for _, res := range rs.Results {
+					if refersTo(info, res, pathIrcsrv, "ErrNoSuchSession") || refersTo(info, res, pathIrcsrv, "ErrSessionNotYetSeen") {
+						n++
+						r.Check(fi.Name() == "ircserver.(*IRCServer).getSessionLocked", "C17.Y2", fi.Name(), "the verdict on an unknown session id is given by getSessionLocked only", c.P.Pos(rs.Pos()), "the one place that compares with lastProcessed",
+							"a look-up answers 'no such session' by itself, without the comparison with the last processed id: a follower that has not applied the session's creation yet tells the client its live session is gone (404) instead of 'not yet seen'")
+					}
+				}
+			}
+		}
+		if n < 2 {
+			r.Break("C17.Y2: only %d returns of the session-lookup errors found", n)
+		}
+	}
+	// a session that never registered can still be ended: QUIT (the line a DeleteSession entry is processed as) is among the
+	// commands ProcessMessage lets through before registration
+	{
+		pre := c.preRegistrationCommands(c.irc())
+		pos := "-"
+		if f := c.irc(); f.PM != nil {
+			pos = c.P.Pos(f.PM.Node().Pos())
+		}
+		if len(pre) >= 3 {
+			r.Check(pre["QUIT"], "C17.Y4", "ircserver.(*IRCServer).ProcessMessage", "QUIT is processed for sessions that have not registered", pos, "QUIT among the pre-registration commands",
+				"QUIT is refused with 'You have not registered' for a session that has not completed NICK/USER: a DELETE request, /kill or the expiry sweep for such a session is answered with success but the session stays in the table, its secret keeps working and the sweep proposes it again every round")
+		} else {
+			r.Break("C17.Y4: the pre-registration gate of ProcessMessage was not recognised (%d commands)", len(pre))
+		}
 	}
 	// the "not yet seen" answer of GetSession compares the asked id with lastProcessed: SetLastProcessed stores its argument
 	if slp := c.MustFunc("ircserver.(*IRCServer).SetLastProcessed"); slp != nil && slp.Body() != nil {
